@@ -14,6 +14,8 @@ PROOF_FAIL = [
     ("unreachable", "unreachable"),
     ("postcondition not satisfied", "post"),
     ("failed this postcondition", "post"),
+    ("unable to prove post-condition of closure", "closure-post"),
+    ("unable to prove pre-condition of closure", "closure-pre"),
     ("may not be in bounds", "bounds"),
     ("recommendation not met", "recommends"),
     ("constructed value may fail to meet its declared type invariant", "typeinv"),
